@@ -144,9 +144,9 @@ def run(tier):
         nsites, ndirect, eng = analyse(mod, run, cfg)
         per[cfg] = {"sites": nsites, "direct_malloc_calloc_realloc": ndirect, "fresh_returning": sorted(eng.fresh_fns),
                     "fallible": sorted(eng.fallible), "purely_fallible": sorted(eng.pure_fallible)}
-        run.floor("allocation sites (%s)" % cfg, nsites, 50)
-        run.floor("direct malloc/calloc/realloc calls (%s)" % cfg, ndirect, 38)
-        run.floor("realloc calls growing a block held in an object (%s)" % cfg, getattr(run, "r8", 0), 2); run.r8 = 0
+        run.floor("allocation sites (%s)" % cfg, nsites, 40)
+        run.floor("direct malloc/calloc/realloc calls (%s)" % cfg, ndirect, 30)
+        run.floor("realloc calls growing a block held in an object (%s)" % cfg, getattr(run, "r8", 0), 1); run.r8 = 0
     controls(run)
     run.coverage.update({"configurations": per, "confirmed_fallbacks": {"%s/%s" % k: v for k, v in CONFIRMED_FALLBACKS.items()},
                          "failure_value_overrides": FAIL_OVERRIDE,
